@@ -14,8 +14,8 @@ from .terms import C, V, Term
 class Ctx:
     """Shared analysis context (one per run)."""
 
-    def __init__(self, program: Optional[Program] = None):
-        self.p = program or Program()
+    def __init__(self, program: Optional[Program] = None, overlay=None):
+        self.p = program or Program(overlay=overlay)
         self.t = Types(self.p)
         self.cg = CallGraph(self.p, self.t)
 
